@@ -67,34 +67,47 @@ structure Numeral where
 /-- value of the digit run `cs` (all valid in base `b`) -/
 def runValue (b : Nat) (cs : List Nat) : Nat := ofDigits b (cs.map fun c => (digitVal c).getD 0)
 
-/-- The longest initial part of `s` (text up to, not including, the first NUL) that has the form
-    *white space, optional sign, optional `0x`/`0X` when the base is 16 or 0, non-empty digit run*;
-    base 0 selects 16 after `0x`, 8 after a leading `0`, else 10.  A `0x` not followed by a
-    hexadecimal digit is not a prefix: the numeral is then the `0` alone. -/
-def parseSpec (base : Nat) (s : List Nat) : Numeral :=
-  let s := s.takeWhile (· != 0)
+/-- a `0x`/`0X` prefix counts only for bases 16 and 0 and only when a hexadecimal digit follows -/
+def hasHexPrefix (base : Nat) (r : List Nat) : Bool :=
+  (base == 0 || base == 16) &&
+  (match r with
+   | 48 :: x :: d :: _ => isX x && isDigitOf 16 d
+   | _ => false)
+
+/-- base 0 selects 16 after a hex prefix, 8 after a leading `0`, else 10 -/
+def effectiveBase (base : Nat) (r : List Nat) : Nat :=
+  if base != 0 then base
+  else if hasHexPrefix base r then 16
+  else (match r with | 48 :: _ => 8 | _ => 10)
+
+/-- the digits part of a numeral: optional hex prefix, then the longest run of digits of the effective
+    base; `(magnitude, characters)`, `none` if the run is empty.  (A `0x` not followed by a hexadecimal
+    digit is not a prefix: the numeral is then the `0` alone.) -/
+def numeralBody (base : Nat) (r : List Nat) : Option (Nat × Nat) :=
+  let hex := hasHexPrefix base r
+  let b := effectiveBase base r
+  let run := (if hex then r.drop 2 else r).takeWhile (isDigitOf b)
+  if run.isEmpty then none else some (runValue b run, (if hex then 2 else 0) + run.length)
+
+/-- optional sign in front of the digits: (negative, characters) -/
+def signOf (r : List Nat) : Bool × Nat :=
+  match r with
+  | 45 :: _ => (true, 1)
+  | 43 :: _ => (false, 1)
+  | _ => (false, 0)
+
+/-- the numeral at the start of a NUL-free text: white space, optional sign, digits part -/
+def parseCore (base : Nat) (s : List Nat) : Numeral :=
   let ws := s.takeWhile isSpace
   let r := s.drop ws.length
-  let (neg, signLen) : Bool × Nat :=
-    match r with
-    | 45 :: _ => (true, 1)
-    | 43 :: _ => (false, 1)
-    | _ => (false, 0)
-  let r := r.drop signLen
-  let hexPrefix : Bool :=
-    (base == 0 || base == 16) &&
-    (match r with
-     | 48 :: x :: d :: _ => isX x && isDigitOf 16 d
-     | _ => false)
-  let b : Nat :=
-    if base != 0 then base
-    else if hexPrefix then 16
-    else (match r with | 48 :: _ => 8 | _ => 10)
-  let body := if hexPrefix then r.drop 2 else r
-  let run := body.takeWhile (isDigitOf b)
-  if run.isEmpty then { negative := false, magnitude := 0, consumed := 0 }
-  else { negative := neg, magnitude := runValue b run,
-         consumed := ws.length + signLen + (if hexPrefix then 2 else 0) + run.length }
+  let sg := signOf r
+  match numeralBody base (r.drop sg.2) with
+  | none => { negative := false, magnitude := 0, consumed := 0 }
+  | some (m, k) => { negative := sg.1, magnitude := m, consumed := ws.length + sg.2 + k }
+
+/-- The longest initial part of `s` (text up to, not including, the first NUL) that has the form
+    *white space, optional sign, optional `0x`/`0X` when the base is 16 or 0, non-empty digit run*. -/
+def parseSpec (base : Nat) (s : List Nat) : Numeral := parseCore base (s.takeWhile (· != 0))
 
 /-- what `strtol`-like functions of a `w`-bit signed result return: the value when representable,
     else the nearest bound (with ERANGE) -/
